@@ -102,7 +102,7 @@ func (rt *Runtime) buildUnder(w *World, cfg string, format string, e *Env07) c07
 		return alt.buildUnder(w, cfg, format, &e2)
 	}
 	oldLocal := time.Local
-	time.Local = time.FixedZone(fmt.Sprintf("verif%+d", e.TZOffsetMin), e.TZOffsetMin*60)
+	time.Local = zoneFor(e.TZOffsetMin)
 	defer func() { time.Local = oldLocal }()
 	if e.GoMaxProcs > 0 {
 		old := runtime.GOMAXPROCS(e.GoMaxProcs)
@@ -141,6 +141,21 @@ func (rt *Runtime) buildUnder(w *World, cfg string, format string, e *Env07) c07
 		}
 	})
 	return out
+}
+
+var zoneCache = map[int]*time.Location{}
+
+// zoneFor returns one *time.Location per offset for the whole process: two
+// builds under the same simulated zone must see the identical pointer, as
+// they would with a real, never-changing time.Local (time.Time values compare
+// their location pointer).
+func zoneFor(offsetMin int) *time.Location {
+	if z, ok := zoneCache[offsetMin]; ok {
+		return z
+	}
+	z := time.FixedZone(fmt.Sprintf("verif%+d", offsetMin), offsetMin*60)
+	zoneCache[offsetMin] = z
+	return z
 }
 
 var unshareState int // 0 unknown, 1 works, 2 does not
@@ -423,6 +438,15 @@ func RunC07(rt *Runtime, sc *Scenario) RunResult {
 		}
 	}
 
+	// stale-source phase: the content of one consumed source changes (same
+	// size, same mtime) after this process has already packaged it; the next
+	// in-process build must ship the new content - equal to what a fresh
+	// process builds and different from the old package. (History dimension:
+	// anything cached across packagings and validated by size/mtime only.)
+	if len(plan.Formats) == 0 && res.Trouble == "" {
+		rt.c07StaleSource(sc, &res, violate)
+	}
+
 	// reach probe: without a fixed mtime two simulated clocks must give
 	// different bytes (otherwise the clock seam does not reach the code)
 	if plan.ProbeConfig != "" && len(plan.Formats) == 0 {
@@ -454,6 +478,119 @@ func RunC07(rt *Runtime, sc *Scenario) RunResult {
 	res.LogHash = elog.Sum()
 	res.Sample = map[string]any{"run": sc.Run, "features": w.Features, "mtime_fixed_by": w.MTimeFixed, "envs": plan.Envs}
 	return res
+}
+
+// mutateSameSize changes the meaning of a source without changing its length.
+func mutateSameSize(kind string, b []byte) bool {
+	swapCase := func(i int) bool {
+		if i < 0 || i >= len(b) {
+			return false
+		}
+		switch c := b[i]; {
+		case c >= 'a' && c <= 'z':
+			b[i] = c - 32
+		case c >= 'A' && c <= 'Z':
+			b[i] = c + 32
+		default:
+			return false
+		}
+		return true
+	}
+	switch kind {
+	case "changelog":
+		i := bytes.Index(b, []byte("note: "))
+		return i >= 0 && swapCase(i+6)
+	case "script":
+		i := bytes.Index(b, []byte("echo "))
+		if i >= 0 && swapCase(i+5) {
+			return true
+		}
+		i = bytes.Index(b, []byte("exit 0"))
+		if i >= 0 {
+			b[i+5] = '1'
+			return true
+		}
+		return false
+	default:
+		if len(b) == 0 {
+			return false
+		}
+		b[len(b)-1] ^= 0x55
+		return true
+	}
+}
+
+func (rt *Runtime) c07StaleSource(sc *Scenario, res *RunResult, violate func(Violation)) {
+	w := &sc.World
+	base := Env07{ClockOffsetS: 12 * 3600, GoMaxProcs: 4, SrcMode: "rel"}
+	done := map[string]bool{}
+	for _, rf := range w.Refs {
+		if !rf.Single || done[rf.Kind] || (rf.Kind != "changelog" && rf.Kind != "script" && rf.Kind != "content") {
+			continue
+		}
+		if !strings.Contains(w.Config, rf.Path) {
+			continue // (a shrunk replay scenario may no longer reference it)
+		}
+		p := filepath.Join(rt.Root, rf.Path)
+		st, err := os.Lstat(p)
+		if err != nil || !st.Mode().IsRegular() || st.Size() == 0 {
+			continue
+		}
+		orig, err := os.ReadFile(p)
+		if err != nil {
+			continue
+		}
+		mut := append([]byte{}, orig...)
+		if !mutateSameSize(rf.Kind, mut) {
+			continue
+		}
+		done[rf.Kind] = true
+		// packages of the old content (this process has now seen the file)
+		old := map[string][]byte{}
+		for _, f := range rf.Formats {
+			b := rt.buildUnder(w, "", f, &base)
+			res.Counters["builds"]++
+			if b.err == nil {
+				old[f] = b.bytes
+			}
+		}
+		mt := st.ModTime()
+		if os.WriteFile(p, mut, st.Mode().Perm()) != nil {
+			continue
+		}
+		os.Chmod(p, st.Mode())
+		os.Chtimes(p, mt, mt)
+		for _, f := range rf.Formats {
+			if old[f] == nil {
+				continue
+			}
+			b := rt.buildUnder(w, "", f, &base)
+			res.Counters["builds"]++
+			res.Counters["probe.stale_source_checks."+rf.Kind]++
+			if b.err != nil {
+				continue
+			}
+			ee := base
+			if bytes.Equal(b.bytes, old[f]) {
+				violate(Violation{Oracle: "A", Format: f, Group: "stale-after-source-change", Class: rf.Kind, Env: &ee,
+					Detail: fmt.Sprintf("%s: the content of %s (%s) changed (same size and mtime) after an earlier packaging in this process, but the package built afterwards is byte-identical to the old one", f, rf.Path, rf.Kind)})
+				continue
+			}
+			if rt.Extra["cli"] != "" {
+				ce := Env07{GoMaxProcs: 4, SrcMode: "rel", Child: true}
+				c := rt.buildChild(w, f, &ce, fmt.Sprintf("stale-%d-%s", sc.Run, f))
+				res.Counters["builds"]++
+				res.Counters["builds_child"]++
+				if c.err == nil && !bytes.Equal(c.bytes, b.bytes) {
+					violate(Violation{Oracle: "A", Format: f, Group: "stale-after-source-change", Class: rf.Kind, Env: &ee,
+						Detail: fmt.Sprintf("%s: after %s (%s) changed in place, the in-process rebuild differs from a fresh process's build of the same tree (%s)", f, rf.Path, rf.Kind, firstDiff(b.bytes, c.bytes))})
+				}
+			}
+		}
+		os.WriteFile(p, orig, st.Mode().Perm())
+		os.Chmod(p, st.Mode())
+		os.Chtimes(p, mt, mt)
+	}
 }
 
 // c07Culprit rebuilds under hybrids of the baseline and the differing
